@@ -553,6 +553,7 @@ def cmp_value(op, rv, mv, exact):
 
 def compare_session(ctor, ops, answer, mode):
     """-> (None | description of the first difference, index of the call, real run)"""
+    H.set_precision(ctor)
     real, final, final_obs = run_session(ctor, ops, mode)
     model = parse_sess(answer)
     if model is None or len(model) != len(ops):
@@ -772,6 +773,7 @@ def oracle_c10(ctor, ops, adms):
     a throw-away copy of `twin`, i.e. on an object with the same history of operations that has never been asked for
     anything."""
     h = make_hist(ctor)
+    H.set_precision(h)
     twin = make_hist(ctor)
     ref = Ref([float(x) for x in h.bin_edges_])
     earlier = []            # references at the earlier outputs of the session (diagnosis: stale value)
@@ -851,7 +853,7 @@ def oracle_c10(ctor, ops, adms):
                 # (rounding of sum(w x) is relative to the size of the terms, not of a sum that may cancel)
                 scale = sum(abs(Fraction(w)) * abs(x) for w, x in zip(ws, xs)) / abs(sw)
                 got_m = float(h.histograms_[0][j])
-                if not (got_m == got_m and abs(got_m) != float("inf") and abs(Fraction(got_m) - mean) <= Fraction(1, 10 ** 11) * scale):
+                if not (got_m == got_m and abs(got_m) != float("inf") and abs(Fraction(got_m) - mean) <= Fraction(H.TOL.rel) * scale):
                     return (f"average:mean:{name}", f"{name}: bin {j} is {float(h.histograms_[0][j])!r}, the weighted mean is {float(mean)!r}", where)
                 std = math.sqrt(var) if var >= 0 else float("nan")
                 got_e = float(h.error_[0][j])
